@@ -250,7 +250,8 @@ def run(ctx):
                        'value)')
     # GetAll --------------------------------------------------------------------
     gfi = prog.func(O + '.getAllProperties')
-    addp = gfi.nested.get('addp')
+    from ..loader import nested_by_role
+    addp = nested_by_role(gfi, 'addp', 'only')
     inl = lambda q, d: q.startswith(gfi.qualname + '.')
     it = Interp(prog, exc_edges=False, inline=inl)
     paths = it.run(gfi)
